@@ -33,13 +33,16 @@ LEVEL_TEXT = ("Lean theorems over the rational model of create_range_dim / creat
               "trailing-point guard and threshold, range test, clamp values, slice-bound side and offset, the indexer) is "
               "traced symbolically from the current source on every run and proved equal to the model's kernels for all "
               "rationals (62 obligations: every way of giving the step, all-positional and all-keyword calls, the lookup "
-              "also on every axis of 2-D / 3-D arrays and on axes carrying a step attribute, with stand-in arrays whose "
+              "also on every axis of 2-D / 3-D arrays and on axes carrying a step attribute or arbitrary start / stop "
+              "attributes (the range of a lookup is that of the coordinates), with stand-in arrays whose "
               "coordinates are registered in another order than their dimensions); the parameter tables of the five "
               "functions are read off the imported code and proved to extend the documented tables (5 obligations); "
               "the library calls themselves are tied by exact differential runs (dyadic grids for ranges incl. "
               "tolerance-sized offsets around both thresholds and 2^k +- 1 coordinates, arbitrary floats for the "
               "comparison-only lookup incl. every lattice point of non-dyadic axes of up to 4099 points, all small shapes "
-              "for writes, non-square 1-D to 3-D arrays built along every construction path of xarray, every call form) "
+              "for writes, non-square 1-D to 3-D arrays built along every construction path of xarray incl. coordinates "
+              "with consistent or stale start / stop / step attributes, arrays out of the library's own extend / crop / "
+              "adjust helpers, every call form) "
               "and by histories in one process (requests and their neighbours with results poisoned and re-read, lookups "
               "on arrays whose coordinates are re-assigned, sessions of writes), every step judged by the model.")
 LEVEL_NOTE = ("Unmodelled: binary64 rounding inside numpy arange (hypothesis of C16_count_robust, evaluated exactly on what "
@@ -67,9 +70,13 @@ RULE = ("range requests on dyadic grids (all quotient fractions 0, 1/4, 1/2, 3/4
         "every call form), every lattice point of axes with steps 0.01, 1/44100 (1025 points), 0.1, 1/3 (257) and every "
         "coordinate of axes of 2^k - 1, 2^k, 2^k + 1 ... 4099 points, lookups on "
         "range-constructor axes inside and within / beyond one step outside (raise and clamp; dimension named by a string "
-        "or the Dimensions member), lookups on every axis of 13 "
+        "or the Dimensions member), lookups and writes on arrays that went through the library's own extend_dim / crop_dim "
+        "/ adjust_dim_range / set_dim_attrs and isel / sel / re-labelling afterwards (coordinates carrying eps-shifted or "
+        "stale `start` / `stop` attributes; queries also at the values the attributes mention), lookups on coordinates "
+        "with hand-made consistent / stale `start` / `stop` / `step` attributes, lookups on every axis of 13 "
         "non-square 2-D / 3-D shapes and writes on 14 shapes x every construction path (coordinate order, transposition, "
-        "dimensions without coordinates, extra coordinates, forms, dtypes, dimension names on other axes), writes on every "
+        "dimensions without coordinates, extra coordinates, forms, dtypes, dimension names on other axes, coordinates with "
+        "`step` or `start` / `stop` / `step` attributes), writes on every "
         "shape with 1-3 axes of 1-3 points and a 4-D sample; histories: range_history (120 / 1200 sequences of 3-5 requests - "
         "a request, neighbours with the same numbers and another dtype / name / kind / call form / number type / "
         "attributes or one number changed, the request again; returned Variables poisoned in place (data, attributes), "
